@@ -7,9 +7,11 @@
 
 import logging
 from collections import defaultdict
+from itertools import chain
 from ..graph.graph import Node
 from ..graph.maskable_graph import MaskableGraph
 from ..arch.registers import Register
+from ..utils.collections import OrderedSet
 
 
 class InterferenceGraphNode(Node):
@@ -17,8 +19,8 @@ class InterferenceGraphNode(Node):
 
     def __init__(self, graph, vreg):
         super().__init__(graph)
-        self.temps = {vreg}
-        self.moves = set()
+        self.temps = OrderedSet([vreg])
+        self.moves = OrderedSet()
         self.reg = vreg if vreg.is_colored else None
         self.reg_class = type(vreg)
 
@@ -49,21 +51,39 @@ class InterferenceGraph(MaskableGraph):
 
     def calculate_interference(self, flowgraph):
         """Construct interference graph"""
+        # The live sets are sets of register objects, which are hashed by
+        # their address, so the iteration order of these sets differs from
+        # run to run. Number the registers in program order, and visit the
+        # live sets in that order, such that the order of the nodes and of the
+        # edges (and thereby the register assignment) is reproducible.
+        order = {}
+        for n in flowgraph:
+            for ins in n.instructions:
+                for tmp in chain(
+                    ins.used_registers, ins.defined_registers, ins.clobbers
+                ):
+                    if tmp not in order:
+                        order[tmp] = len(order)
+
+        def in_order(tmps):
+            return sorted(tmps, key=order.__getitem__)
+
         for n in flowgraph:
             for ins in n.instructions:
                 # ins.live_out |= ins.
-                for tmp in ins.live_in:
+                for tmp in in_order(ins.live_in):
                     self.get_node(tmp)
 
                 # Live out and zero length defined variables:
-                live_and_def = ins.live_out | ins.kill
+                live_and_def = in_order(ins.live_out | ins.kill)
 
                 # Add interfering edges:
                 for tmp in live_and_def:
                     n1 = self.get_node(tmp)
-                    for tmp2 in live_and_def - {tmp}:
-                        n2 = self.get_node(tmp2)
-                        self.add_edge(n1, n2)
+                    for tmp2 in live_and_def:
+                        if tmp2 is not tmp:
+                            n2 = self.get_node(tmp2)
+                            self.add_edge(n1, n2)
 
                     # Add clobbered interfering edges:
                     for tmp2 in ins.clobbers:
@@ -106,7 +126,7 @@ class InterferenceGraph(MaskableGraph):
         """Combine n and m into n and return n"""
         # Copy associated moves and temporaries into n:
         n.temps |= m.temps
-        n.moves.update(m.moves)
+        n.moves |= m.moves
 
         # Update local temp map:
         for tmp in m.temps:
